@@ -61,9 +61,13 @@ package cache
 // Creating an entry reserves the header with zero bytes only: until Close has written the
 // real header no digest in the file can verify, whatever prefix of the body has reached the
 // disk.  ghostint("fwcount"/"fwlen"/"fwzero") are maintained by (*os.File).Write.
+//@ external func flate.NewWriter(w io.Writer, level int) (z *flate.Writer, err error)
+//@   ensures isnil(err) ==> !isnil(z) && fresh(z)
+//@   assigns nothing
 //@ func CreateLevel(path string, h hash.Hash, rsum, dsum []byte, level int) (file *File, err error)
 //@   prop C13
 //@   requires !isnil(h) && ghostint("fwcount") == 0
 //@   ensures placeholder: ghostint("fwcount") <= 1 && (ghostint("fwcount") == 1 ==> ghostint("fwzero") == 1 && ghostint("fwlen") == 3*ghostint("hsize"))
 //@   ensures reserved: isnil(err) ==> ghostint("fwcount") == 1
+//@   ensures own_writer: isnil(err) ==> is(file.wr, *flate.Writer) && fresh(file.wr.(*flate.Writer))
 //@   callpre WriteTo(w): false
